@@ -133,6 +133,8 @@ func init() {
 		}
 		r.checkFn(ld, "z80.(*CPU).Step", cs, nil, true, true, "cpu.Step()")
 		r.verifyLayerP(ld, "C12")
+		// (a') the bundled memory / port implementations behind Step
+		r.checkBundledTotality(ld)
 		// (b)
 		r.checkStructure(ld, "z80.(*CPU).Step")
 		// "Run returns once its program halts": in the iteration in which the halted
@@ -143,4 +145,120 @@ func init() {
 		r.Assumptions["C12: totality of mode 0 when the overlay is inactive or Data is shorter than the opcode is compositional: executeOne is panic-free for every total Memory, im0data.Get/Set are total under the invariant newIm0data establishes"] = true
 		r.Assumptions["C12: stack exhaustion / out-of-memory are not modelled; termination of Run for a given program is the halting problem (C08 proves: Run returns in the iteration that executes HALT)"] = true
 	}
+}
+
+// totalityVC: Step is panic-free when the CPU is wired to the *bundled* memory
+// and port implementations (short DumbMemory / DumbIO of any length,
+// initialised MapMemory), for every opcode (symbolic, not split), every
+// register state and every request.  The memory methods are used through
+// their own contracts (C15), so the only safety obligations left are the
+// emulator's own.
+func (ld *Loaded) totalityVC(name, memKind, ioKind string, withIntr bool) (vc *VC, err error) {
+	defer func() {
+		if r := recover(); r != nil {
+			if u, ok := r.(Unsupported); ok {
+				err = fmt.Errorf("UNSUPPORTED %s (%s)", u.Msg, name)
+				return
+			}
+			panic(r)
+		}
+	}()
+	stepFn := ld.funcByKey("z80.(*CPU).Step")
+	x := NewExec(ld)
+	x.useContracts = true
+	b := x.b
+	st := &State{h: Heap{}}
+	x.setupGhost(stepFn.Pkg, st)
+	x.initPackage(stepFn.Pkg, st)
+	inst := x.symbolicArgs(stepFn, st)[0]
+	cpu := inst.args[0].(*PtrV)
+	pkg := ld.pkgs[modPath]
+	memI := pkg.Type("Memory").Type()
+	ioI := pkg.Type("IO").Type()
+	switch memKind {
+	case "DumbMemory":
+		t := pkg.Type("DumbMemory").Type()
+		x.setCPU(st, cpu, &IfaceV{Dyn: x.symV(t, "dumbmem", st.h), DynT: t, T: memI}, "Memory")
+	case "MapMemory":
+		t := pkg.Type("MapMemory").Type()
+		mv := x.symV(t, "mapmem", st.h).(*MapV)
+		mv.Nil = b.False() // an initialised MapMemory
+		x.setCPU(st, cpu, &IfaceV{Dyn: mv, DynT: t, T: memI}, "Memory")
+	default:
+		mi := x.getCPU(st, cpu, "Memory").(*IfaceV)
+		x.setCPU(st, cpu, &IfaceV{Nil: b.False(), Opaque: mi.Opaque, T: mi.T}, "Memory")
+	}
+	switch ioKind {
+	case "DumbIO":
+		t := pkg.Type("DumbIO").Type()
+		x.setCPU(st, cpu, &IfaceV{Dyn: x.symV(t, "dumbio", st.h), DynT: t, T: ioI}, "IO")
+	case "nil":
+		x.setCPU(st, cpu, &IfaceV{Nil: b.True(), T: ioI}, "IO")
+	}
+	if !withIntr {
+		x.setCPU(st, cpu, &PtrV{}, "Interrupt")
+	} else {
+		ip := x.intrObj(st, cpu)
+		x.setCPU(st, cpu, &PtrV{Obj: ip.Obj, Path: ip.Path}, "Interrupt")
+		// mode 0 behind a bundled memory is compositional (im0data is total over any
+		// total base memory): excluded here, IM is any other value
+		im := x.getCPU(st, cpu, "IM").(*Term)
+		e := b.Eq(im, b.Const(64, 0))
+		x.assume(b.Not(e))
+		x.seedFacts = map[*Term]*Term{e: b.False()}
+	}
+	x.obligs = nil
+	x.run(stepFn, inst.args, &State{h: st.h.clone(), facts: x.seedFacts}, b.True())
+	q := &Query{Hyps: x.hyps, Goals: x.obligs}
+	// values for the replay: CPU leaves, request, and the bundled stores
+	pre := st.h
+	x.addReplayValues(q, pre, cpu)
+	for _, f := range []string{"Memory", "IO"} {
+		if iv, ok := x.getCPU(st, cpu, f).(*IfaceV); ok && iv.Dyn != nil {
+			if sl, ok := iv.Dyn.(*SliceV); ok {
+				q.Values = append(q.Values, NamedTerm{"tot:" + f + ":len", sl.Len})
+				q.Prefer = append(q.Prefer, b.Not(b.Cmp("bvult", b.Const(64, 0x10000), sl.Len)))
+				if arr, ok := st.h[sl.Obj].(*Term); ok {
+					r0 := arr
+					for r0.Op == "store" {
+						r0 = r0.Args[0]
+					}
+					if r0.Op == "var" {
+						for k, ix := range x.reads[r0.Name] {
+							q.Values = append(q.Values, NamedTerm{fmt.Sprintf("totcell:%s:%d:idx", f, k), ix})
+							q.Values = append(q.Values, NamedTerm{fmt.Sprintf("totcell:%s:%d:val", f, k), b.Select(arr, ix)})
+						}
+					}
+				}
+			}
+		}
+	}
+	return &VC{Name: name, Layer: "P", Query: q, B: b, Exec: x, Replay: &ReplaySpec{Kind: "step", Intr: withIntr, Total: memKind + "/" + ioKind}}, nil
+}
+
+func (r *Run) checkBundledTotality(ld *Loaded) {
+	type tc struct {
+		mem, io string
+		intr    bool
+	}
+	var cases []tc
+	for _, intr := range []bool{false, true} {
+		cases = append(cases, tc{"DumbMemory", "nil", intr}, tc{"MapMemory", "DumbIO", intr}, tc{"user", "DumbIO", intr})
+	}
+	res := r.pipeline(len(cases), func(i int) (*VC, error) {
+		c := cases[i]
+		req := "no request"
+		if c.intr {
+			req = "any request"
+		}
+		return ld.totalityVC(fmt.Sprintf("z80.(*CPU).Step/total[Memory=%s IO=%s %s]", c.mem, c.io, req), c.mem, c.io, c.intr)
+	})
+	var bad []*OblResult
+	for _, o := range res {
+		r.add(o)
+		if o.Status != "discharged" {
+			bad = append(bad, o)
+		}
+	}
+	r.reportFailures(ld, bad, nil)
 }
